@@ -1,0 +1,45 @@
+package cmd
+
+import (
+	"os"
+	"path/filepath"
+)
+
+// writeFileAtomic replaces the file at path with data in such a way that a
+// crash, a kill or a failing write at any moment leaves either the complete
+// old content or the complete new content on disk: the data is written and
+// synced to a temporary file in the same directory, which is then renamed over
+// path. An existing file keeps its permission bits; perm is used for a new one.
+func writeFileAtomic(path string, data []byte, perm os.FileMode) error {
+	if info, err := os.Stat(path); err == nil {
+		perm = info.Mode().Perm()
+	}
+	tmp, err := os.CreateTemp(filepath.Dir(path), "."+filepath.Base(path)+".tmp-*")
+	if err != nil {
+		return err
+	}
+	tmpName := tmp.Name()
+	fail := func(err error) error {
+		_ = tmp.Close()
+		_ = os.Remove(tmpName)
+		return err
+	}
+	if _, err := tmp.Write(data); err != nil {
+		return fail(err)
+	}
+	if err := tmp.Chmod(perm); err != nil {
+		return fail(err)
+	}
+	if err := tmp.Sync(); err != nil {
+		return fail(err)
+	}
+	if err := tmp.Close(); err != nil {
+		_ = os.Remove(tmpName)
+		return err
+	}
+	if err := os.Rename(tmpName, path); err != nil {
+		_ = os.Remove(tmpName)
+		return err
+	}
+	return nil
+}
